@@ -32,24 +32,62 @@ def scenarios(tier, seed):
     return out
 
 
+def limit_scenarios(tier):
+    """Problems around the 8/16-bit index types of Problem.init (harness/cap_limits.py)."""
+    L = 65535
+    out = []
+    for size in (L - 1, L, L + 1, L + 2, 70000, 2 * L + 7):
+        out.append(("unary", size))
+        out.append(("unary_mixed", size - 2))
+    for size in (32764, 32768, 33024):
+        out.append(("params2", size))
+        out.append(("positions2", size))
+    out += [("params3", 21844), ("params3", 21848), ("params_tail", 65532), ("params_tail", 65536 - 4),
+            ("positions1", 65534), ("positions1", 65540)]
+    for size in (L - 1, L, L + 1, L + 2, L + 3, 70000):
+        out.append(("domains", size))
+    out += [("views", 70000), ("views", 131080), ("algorithms", 255), ("algorithms", 256), ("algorithms", 257), ("algorithms", 300)]
+    scs = []
+    for name, size in out:
+        for jit in (True, False):
+            # an ACCEPTED problem with 65 535 constraints takes minutes when interpreted: thorough tier only
+            if not jit and tier == "quick" and name in ("unary", "unary_mixed") and size <= L:
+                continue
+            scs.append({"kind": "limit", "name": name, "size": size, "jit": jit})
+    return scs
+
+
 def c19(tier, seed, replay):
     rep = Report("C19", tier, "model_checking")
     warm_jit()
     scs = scenarios(tier, seed)
+    for x in scs:
+        x["kind"] = "stack"
+    lim = limit_scenarios(tier)
+    for k, x in enumerate(lim):
+        x.update({"rid": len(scs) + k, "n": 0, "h": 0, "dh": 0})
+    scs = scs + lim
     with Scratch("cap") as tmp:
         def one(x):
             out = tmp / f"cap-{x['rid']}.json"
+            if x["kind"] == "stack":
+                cmd = [PY, str(HARNESS / "cap_worker.py"), str(x["n"]), str(x["h"]), str(x["dh"]), str(out)]
+            else:
+                cmd = [PY, str(HARNESS / "cap_limits.py"), x["name"], str(x["size"]), str(out)]
             try:
-                p = subprocess.run([PY, str(HARNESS / "cap_worker.py"), str(x["n"]), str(x["h"]), str(x["dh"]), str(out)],
-                                   env=nucs_env(jit=x["jit"]), capture_output=True, text=True, timeout=300)
+                p = subprocess.run(cmd, env=nucs_env(jit=x["jit"]), capture_output=True, text=True,
+                                   timeout=300 if tier == "quick" else 1500)
                 rc = p.returncode
             except subprocess.TimeoutExpired:
                 rc = 0
             rec = json.load(open(out)) if out.exists() else {"outcome": "deadline"}
-            rec.update({"rid": x["rid"], "exit": rc, "n": x["n"], "h": x["h"], "dh": x["dh"]})
-            for f, d in (("count", 0), ("distinct", True), ("indomain", True), ("depth", -1), ("full", False), ("first_ok", True)):
+            rec.update({"rid": x["rid"], "exit": rc, "n": x["n"], "h": x["h"], "dh": x["dh"], "kind": x["kind"]})
+            for f, d in (("count", 0), ("distinct", True), ("indomain", True), ("depth", -1), ("full", False), ("first_ok", True),
+                         ("expected", -1), ("valid", True), ("raised", "")):
                 rec.setdefault(f, d)
             rec.pop("first", None)
+            rec.pop("name", None)
+            rec.pop("size", None)
             return rec
 
         with ThreadPoolExecutor(max_workers=NCPU) as ex:
@@ -61,6 +99,12 @@ def c19(tier, seed, replay):
             continue
         seen.add((rid, clause))
         x = scs[rid]
+        if x["kind"] == "limit":
+            rep.fail({"scenario": x["name"], "size": x["size"], "mode": "compiled" if x["jit"] else "interpreted", "clause": clause},
+                     f"{clause}: index-type limit scenario {x['name']}({x['size']}), {'compiled' if x['jit'] else 'interpreted'} "
+                     f"-> outcome={recs[rid]['outcome']} count={recs[rid]['count']} expected={recs[rid]['expected']} "
+                     f"valid={recs[rid]['valid']} exit={recs[rid]['exit']}")
+            continue
         rep.fail({"n": x["n"], "height": x["h"], "dh": x["dh"], "mode": "compiled" if x["jit"] else "interpreted", "clause": clause},
                  f"{clause}: {x['n']} free variables, stack_max_height={x['h']}, value heuristic {x['dh']}, "
                  f"{'compiled' if x['jit'] else 'interpreted'} -> {recs[rid]}")
@@ -71,6 +115,10 @@ def c19(tier, seed, replay):
             distinct_nontrivial=sum(1 for x in recs if x["outcome"] in ("raised", "refused") or x["count"] > 1),
             samples=[{k: x[k] for k in ("n", "h", "dh", "outcome", "count", "depth", "exit", "raised")} for x in recs[:: max(1, len(recs) // 5)][:5]])
     rep.cov["sweep_outcomes"] = outcomes
+    rep.cov["index_type_limit_scenarios"] = {
+        "scenarios": len(lim),
+        "outcomes": {f"{x['name']}({x['size']}) {'compiled' if x['jit'] else 'interpreted'}": recs[x["rid"]]["outcome"]
+                     + (":" + recs[x["rid"]]["raised"] if recs[x["rid"]]["raised"] else "") for x in lim}}
     # engine traces with tiny stacks (Layer A: the search never continues above the configured height)
     engine.report_engine(rep, tier, seed, "C19", ("C19:",), "with stacks of 1..5 levels the search either fits or "
                          "stops with the capacity error right after the push that does not fit")
@@ -78,7 +126,8 @@ def c19(tier, seed, replay):
     rep.cov["rule"] = ("SWEEP: stack heights 1..6, 9, 127, 128, 253..257, 300, 512, 1000 x searches needing height-2 .. "
                        "height+1 levels x the four branching value heuristics x both execution modes, one process per "
                        "scenario (exit status observed), judged by spec/Capacity.tla. ENGINE TRACES: " + rep.cov["rule"])
-    rep.assumptions += ["index-type limits of Problem.init (more than 65535 constraint positions / parameters / domains, "
-                        "more than 255 algorithms) were probed by hand: numpy raises OverflowError / ValueError for each "
-                        "(DESIGN.md section 8); they are not part of the automated sweep"]
+    rep.cov["rule"] += (" INDEX-TYPE LIMITS: problems just below, at and above what the 8/16-bit arrays of Problem.init can "
+                        "represent (cumulated constraint positions, cumulated parameters, number of constraints, of domains, "
+                        "of views, of registered algorithms), each with a known solution set, one process per scenario and "
+                        "mode: a refusal or exactly the right solutions.")
     return rep.finish()
